@@ -70,6 +70,11 @@ def run(ctx, rep) -> None:
     rep.rule("C13.2", "only finite values are stored: NaN/Inf test on the stored-dtype value dominates copy_, raises PreconditionerValueError outside the try; factor check dominates the routine; refresh precedes the parameter update")
     rep.rule("C13.3", "counter transition: success => 0; failure => +1 and raise iff count > tolerance; applied to the block's own (local) counter")
     rep.rule("C13.4", "no subscript store on the step path goes into a masked list (a snapshot re-created on every mask change)")
+    rep.rule("C13.5", "the tolerance is the block's own: the preconditioner config handed to the lists is the parameter group's, counters are created per list")
+    from .common import hyperparameters_from_group, per_group_fresh
+
+    rep.attempt("hyperparameters_from_group", hyperparameters_from_group, ctx, rep, "C13.5")
+    rep.attempt("per_group_fresh", per_group_fresh, ctx, rep, "C13.5", ["distributed_shampoo.distributed_shampoo:DistributedShampoo._instantiate_shampoo_preconditioner_list"])
     kinds = pts.state_kinds()
     for cq, (routine, kind) in LISTS.items():
         ci = repo.cls(cq)
